@@ -6,6 +6,7 @@ package main
 import (
 	"fmt"
 	"sort"
+	"strings"
 )
 
 func (e *Engine) specOnlyExec(c *Ctx) *FnExec {
@@ -24,7 +25,7 @@ func (fx *FnExec) lemmaTerm(ax *Axiom, pkg string) *Term {
 		env.pkg = pkg
 	}
 	if ax.By == "" {
-		return env.boolExpr(ax.Expr)
+		return generaliseHeap(env.boolExpr(ax.Expr))
 	}
 	e := ax.Expr
 	if e.Kind != "call" || e.Name != "forall" {
@@ -35,7 +36,78 @@ func (fx *FnExec) lemmaTerm(ax *Axiom, pkg string) *Term {
 		{Kind: "binary", Name: ">=", Args: []*SExpr{{Kind: "ident", Name: ax.By}, {Kind: "int", Int: "0"}}},
 		body}}
 	ne := &SExpr{Kind: "call", Name: "forall", Args: append(append(append([]*SExpr{}, binders...), guard), pats...)}
-	return env.boolExpr(ne)
+	return generaliseHeap(env.boolExpr(ne))
+}
+
+// generaliseHeap: a lemma about heap-reading spec functions is proved for an
+// arbitrary heap (the components appear as the free constants H0_<component>);
+// where it is used it holds for every heap, so those constants become
+// universally quantified variables of the lemma.
+func generaliseHeap(t *Term) *Term {
+	comps := map[string]Sort{}
+	var walk func(x *Term)
+	walk = func(x *Term) {
+		if len(x.Args) == 0 && x.lit == nil && strings.HasPrefix(x.Op, "H0_") {
+			comps[x.Op] = x.S
+		}
+		for _, a := range x.Args {
+			walk(a)
+		}
+		for _, a := range x.Pats {
+			walk(a)
+		}
+		for _, ps := range x.AltPats {
+			for _, a := range ps {
+				walk(a)
+			}
+		}
+	}
+	walk(t)
+	if len(comps) == 0 {
+		return t
+	}
+	var names []string
+	for n := range comps {
+		names = append(names, n)
+	}
+	sort.Strings(names)
+	m := map[string]*Term{}
+	var hv []*Term
+	for _, n := range names {
+		v := Var("hp!"+n[3:], comps[n])
+		m[n] = v
+		hv = append(hv, v)
+	}
+	if t.Op == "forall" {
+		// only if every heap variable is bound by the (first) pattern; otherwise the fact stays
+		// an instance for the heap on entry, as before
+		if len(t.Pats) > 0 {
+			pt := ""
+			for _, p := range t.Pats {
+				pt += " " + p.String()
+			}
+			for _, n := range names {
+				if !strings.Contains(pt, n) {
+					return t
+				}
+			}
+		}
+		body := subst(t.Args[0], m)
+		var pats []*Term
+		for _, p := range t.Pats {
+			pats = append(pats, subst(p, m))
+		}
+		var nap [][]*Term
+		for _, ps := range t.AltPats {
+			var x []*Term
+			for _, p := range ps {
+				x = append(x, subst(p, m))
+			}
+			nap = append(nap, x)
+		}
+		return &Term{Op: "forall", S: SBool, Bound: append(append([]*Term{}, t.Bound...), hv...), Args: []*Term{body}, Pats: pats, AltPats: nap}
+	}
+	return Forall(hv, subst(t, m))
 }
 
 // VerifyLemma generates the proof obligations of a lemma. Only axioms and
